@@ -26,8 +26,14 @@ func verifEvtKV(kind string, key string, a, b int64) {
 	}
 }
 
+// verifSetMu keeps the events of one produce set (stamp, messages, end) contiguous in the event stream even
+// when several bridge goroutines report sets at the same time.
+var verifSetMu sync.Mutex
+
 func verifEvtSet(kind string, set *produceSet, a int) {
 	if s := VerifSink; s != nil {
+		verifSetMu.Lock()
+		defer verifSetMu.Unlock()
 		set.eachPartition(func(topic string, partition int32, pSet *partitionSet) {
 			if rb := pSet.recordsToSend.RecordBatch; rb != nil && len(pSet.msgs) > 0 {
 				// the stamp the batch will carry on the wire: (producer epoch, first sequence)
@@ -65,4 +71,25 @@ func verifBP(bp *brokerProducer) int {
 		verifBPSerial[bp] = n
 	}
 	return int(bp.broker.ID())*4096 + n%4096
+}
+
+var (
+	verifIDMu     sync.Mutex
+	verifIDSerial = map[interface{}]int64{}
+)
+
+// verifID identifies an object (by pointer) in hook events: a serial number (from 1) unique per object for the
+// lifetime of the process. Without a sink nothing is registered.
+func verifID(p interface{}) int64 {
+	if VerifSinkKV == nil {
+		return 0
+	}
+	verifIDMu.Lock()
+	defer verifIDMu.Unlock()
+	n, ok := verifIDSerial[p]
+	if !ok {
+		n = int64(len(verifIDSerial) + 1)
+		verifIDSerial[p] = n
+	}
+	return n
 }
